@@ -420,6 +420,23 @@ func main() {
 			}
 			continue
 		}
+		if i := strings.Index(r.out, "WARNING: DATA RACE"); i >= 0 {
+			// the race detector's report is the reproduction we can keep (schedules are not replayable)
+			rep := r.out[i:]
+			if len(rep) > 6000 {
+				rep = rep[:6000]
+			}
+			rb, _ := json.MarshalIndent(map[string]any{"property": id, "test": "race-detector", "case": map[string]string{"unit": name}, "error": rep}, "", " ")
+			tmp := filepath.Join(workDir, sanitize(name)+".race.json")
+			os.WriteFile(tmp, rb, 0o644)
+			if len(violations) < 3 {
+				violations = append(violations, saveReplay(id, tmp, name))
+				fmt.Printf("--- data race reported in %s ---\n%s\n", name, tail(rep, 40))
+			} else {
+				moreViolations++
+			}
+			continue
+		}
 		if r.exit == 3 && strings.Contains(r.out, "INCONCLUSIVE-IN-CHILD") {
 			problems = append(problems, name+": "+lastLineWith(r.out, "INCONCLUSIVE-IN-CHILD"))
 			continue
